@@ -48,7 +48,7 @@ func switchKinds(info *types.Info, fd *ast.FuncDecl) map[string]*ast.CaseClause 
 func CheckC11(c *Ctx) {
 	run := c.Run
 	run.Technique = "typed-AST agreement lints between sibling encoder/decoder functions: handled reflect kinds, bit-size table, float/time format arguments, constant-folded os.OpenFile flag sets, header-map indexing, JSON delimiters"
-	run.Explanation = "Round-trip equality for all values depends on strconv, encoding/csv, encoding/json and time and is NOT decided. Decided are the structural agreements (and, for every struct with codec tags, that no two fields share a json or header name: encoding/json drops both such fields silently) without which some value cannot round-trip: getReflectValue and setReflectValue handle the same reflect kinds; every sized numeric kind has a bit size in kindToBits, and the formatter and the parser use the same entry; floats are written with FormatFloat(v, fmt, -1, bits) (shortest representation that parses back exactly); time values are formatted and parsed with the same layout value; WriteToFile opens with O_CREATE|O_WRONLY|O_TRUNC (a shorter rewrite must not keep the old tail) and AppendToFile with O_APPEND|O_WRONLY; AppendOrWriteToCsvFile appends only to an existing non-empty file; the reader indexes each record through the header map; ChanToJSON emits and JSONToChan expects '[' ',' ']'. Column order: header i and cell i of every written row are taken from the same column descriptor at the loop's own position."
+	run.Explanation = "Round-trip equality for all values depends on strconv, encoding/csv, encoding/json and time and is NOT decided. Decided are the structural agreements (and, for every struct with codec tags, that no two fields share a json or header name: encoding/json drops both such fields silently) without which some value cannot round-trip: getReflectValue and setReflectValue handle the same reflect kinds; every sized numeric kind has a bit size in kindToBits, and the formatter and the parser use the same entry; floats are written with FormatFloat(v, fmt, -1, bits) (shortest representation that parses back exactly); time values are formatted and parsed with the same layout value; WriteToFile opens with O_CREATE|O_WRONLY|O_TRUNC (a shorter rewrite must not keep the old tail) and AppendToFile with O_APPEND|O_WRONLY; AppendOrWriteToCsvFile appends only to an existing non-empty file; the reader indexes each record through the header map; ChanToJSON emits and JSONToChan expects '[' ',' ']'. Column order: header i and cell i of every written row are taken from the same column descriptor at the loop's own position. Also: integers and booleans are written and parsed with the same strconv family, base 10 and the field's own 64-bit value (SSA terms of the calls); the parsed value is stored exactly on the paths where the parse succeeded; every layout constant of the codec (default format, format tags) carries each field it mentions completely (07:14 vs 19:14, 1923 vs 2023 evaluated with time.Format)."
 	run.Trusted = []string{"go/types constant folding", "strconv/encoding/time semantics of the named functions"}
 	hp := c.P.Pkg("helper")
 	if hp == nil {
